@@ -1,5 +1,6 @@
 from mindsdb_sql.parser.ast.base import ASTNode
 from mindsdb_sql.parser.utils import indent
+from mindsdb_sql.parser.ast.select.identifier import no_wrap_identifier_regex
 
 
 class Show(ASTNode):
@@ -48,25 +49,22 @@ class Show(ASTNode):
                   f'\n{ind})'
         return out_str
 
+    @staticmethod
+    def table_to_str(keyword, table):
+        # FROM a FROM b is stored as the identifier b.a
+        if not table:
+            return ''
+        if all(isinstance(i, str) and no_wrap_identifier_regex.fullmatch(i) for i in table.parts):
+            ar = [f'{keyword} {i}' for i in table.parts]
+            ar.reverse()
+            return ' ' + ' '.join(ar)
+        # a part that is not a plain word (`x.y`, digits, non-ASCII, *) is only readable as part of a quoted identifier
+        return f' {keyword} {table.to_string()}'
+
     def get_string(self, *args, **kwargs):
 
-        from_str = ''
-        if self.from_table:
-            ar = [
-                f'FROM {i}'
-                for i in self.from_table.parts
-            ]
-            ar.reverse()
-            from_str = ' ' + ' '.join(ar)
-
-        in_str = ''
-        if self.in_table:
-            ar = [
-                f'IN {i}'
-                for i in self.in_table.parts
-            ]
-            ar.reverse()
-            in_str = ' ' + ' '.join(ar)
+        from_str = self.table_to_str('FROM', self.from_table)
+        in_str = self.table_to_str('IN', self.in_table)
 
         modes_str = f' {" ".join(self.modes)}' if self.modes else ''
         like_str = f" LIKE '{self.like}'" if self.like else ""
